@@ -1,3 +1,4 @@
+import JP.Lemmas.TextParse
 import JP.Lemmas.ScanRec
 
 /-!
